@@ -543,6 +543,24 @@ def execute(case, ctx):
         if len(got) != len(names):
             bad("varname-comment-count", "%d lines for %d variables" %
                 (len(got), len(names)))
+    if klass == "opb":
+        out = io.StringIO()
+        r = call(F.to_file, out, fileformat="opb", export_varnames=True,
+                 export_header=False)
+        if r[0] == "exc":
+            bad_exc("opb-varnames-output", r[1])
+        got = {}
+        for line in out.getvalue().split("\n"):
+            if line.startswith("* varname x"):
+                num, _, name = line[len("* varname x"):].partition(" ")
+                got[int(num)] = name
+        for i, w in enumerate(names, start=1):
+            if w is not None and got.get(i) != w:
+                bad("opb-varname-comment-misaligned", "* varname x%d %r, "
+                    "expected %r" % (i, got.get(i), w))
+        if len(got) != len(names):
+            bad("opb-varname-comment-count", "%d lines for %d variables" %
+                (len(got), len(names)))
     if klass in ("cnf", "base") and 0 < len(names) <= 60 and \
             all(w is not None for w in names):
         G2 = CNF() if klass == "cnf" else None
